@@ -32,10 +32,10 @@ from ..rigs import fwd_rig as R
 WORKERS = 8
 MAXHOPS = 2
 DEVS    = ['DevKeepFwd', 'DevL2PAnyOrigin', 'DevL2PIgnoreFwd', 'DevP2LNoSelfDrop',
-           'DevResultCopiesFwd']
+           'DevResultCopiesFwd', 'DevBulkHeadDecides']
 STRUCT  = ['TypeOK', 'InvCleared', 'InvHopsWhere']
 PROPINV = ['InvAtMostOnce', 'InvStaysLocal', 'InvSettled', 'InvHops', 'InvRpcReturns',
-           'InvRpcServedOnce']
+           'InvRpcServedOnce', 'InvClientUpdate']
 UNKNOWN = 'nobody'                       # origin marker naming no connected side
 FWDVALS = ('true', 'false', 'absent')
 MONITOR_CONSTANTS = 'MaxHops = %d' % MAXHOPS
@@ -43,13 +43,13 @@ MONITOR_CONSTANTS = 'MaxHops = %d' % MAXHOPS
 
 # ------------------------------------------------------------------------------
 def mc_cfg(npilots, nmsgs, devs=(), invs=None, props=(), fair=False, fwdchoice=FWDVALS,
-           sym=False, eager=False, nrpc=0):
+           sym=False, eager=False, nrpc=0, nadv=0):
     '''sym: pilots are model values and a symmetry set (safety runs only)'''
     assert not (sym and (fair or props))
     c  = 'CONSTANTS\n'
     c += ' Pilots = {%s}\n' % ', '.join(('p%d' if sym else '"p%d"') % (i + 1) for i in range(npilots))
     c += ' Unknown = {"%s"}\n NMsgs = %d\n MaxHops = %d\n' % (UNKNOWN, nmsgs, MAXHOPS)
-    c += ' EagerApp = %s\n NRpc = %d\n' % ('TRUE' if eager else 'FALSE', nrpc)
+    c += ' EagerApp = %s\n NRpc = %d\n NAdv = %d\n' % ('TRUE' if eager else 'FALSE', nrpc, nadv)
     c += ' FwdChoice = {%s}\n' % ', '.join('"%s"' % f for f in fwdchoice)
     for d in DEVS:
         c += ' %s = %s\n' % (d, 'TRUE' if d in devs else 'FALSE')
@@ -120,14 +120,23 @@ def got_table(rig, like):
 def run_script(npilots, chan, script):
     '''replay one TLC behaviour on the real forwarders; returns (rig, notes, final_ok)'''
     with_rpc   = any(st['act'] == 'PublishReq' for st in script)
-    rig, notes = R.FwdRig(npilots, with_rpc=with_rpc), []
+    rig, notes, free = R.FwdRig(npilots, with_rpc=with_rpc), [], set()
     if with_rpc:
         chan = 'control'
+    elif any(st['act'] == 'Advance' for st in script):
+        chan = 'state'
     for n, st in enumerate(script):
         act, a = st['act'], st['args']
         link = None
         if act == 'PublishReq':
             rig.publish_req(side_name(a[0]), side_name(a[1]))
+        elif act == 'Advance':
+            tasks = [('task.%03d.%d' % (n, k), o if o == 'client' else ('raptor', 'agent')[(n + k) % 2])
+                     for k, o in enumerate(a[1:-1])]
+            if 'client' not in a[1:-1]:
+                free.add(rig.fab.ngid + 1)     # pilot-internal bulk: not compared
+            rig.advance_bulk(side_name(a[0]), tasks, ADV_STATES[n % len(ADV_STATES)][0],
+                             push=ADV_STATES[n % len(ADV_STATES)][1], fwd=(a[-1] == 'true'))
         elif act == 'Publish':
             o = side_name(a[1])
             rig.publish(side_name(a[0]), chan, origin=rig.ident.get(o, o), fwd=a[2])
@@ -153,7 +162,9 @@ def run_script(npilots, chan, script):
     rig.quiet(rig.drain())
     if script and not script[-1]['queues'] and script[-1]['got']:
         # the model is at rest: the counts there are the ones the property demands
-        final_ok = script[-1]['got'] == got_table(rig, script[-1]['got'])
+        mine, model = got_table(rig, script[-1]['got']), script[-1]['got']
+        final_ok = all(mine[s][i] == model[s][i] for s in model for i in range(len(model[s]))
+                       if i + 1 not in free)
     return rig, notes, final_ok, at_rest
 
 
@@ -220,6 +231,47 @@ def run_random(npilots, nmsgs, seed):
     return rig
 
 
+ADV_STATES = [(R.rps.AGENT_EXECUTING, True), (R.rps.DONE, False), (R.rps.FAILED, False),
+              (R.rps.CANCELED, False), (R.rps.AGENT_STAGING_OUTPUT_PENDING, False)]
+ORIGINS    = ('client', 'raptor', 'agent')
+
+
+def bulk_shapes(maxlen=3):
+    out = [[]]
+    for _ in range(maxlen):
+        out = out + [b + [o] for b in out if len(b) == _ for o in ORIGINS]
+    return [b for b in out if b]
+
+
+def run_advance(npilots, calls, seed):
+    '''state bulks through the real AgentComponent.advance(.., publish=True, fwd=True):
+       calls = [(pilot index, origins in bulk order, index into ADV_STATES, fwd, preset)]'''
+    rng = random.Random(seed)
+    rig = R.FwdRig(npilots)
+    for n, (pi, origins, si, fwd, preset) in enumerate(calls):
+        side  = rig.sides[1 + pi % npilots]
+        tasks = [('task.%03d.%d' % (n, k), o) for k, o in enumerate(origins)]
+        rig.advance_bulk(side, tasks, ADV_STATES[si][0], fwd=fwd, push=ADV_STATES[si][1], preset=preset)
+        for _ in range(rng.randint(0, 6)):
+            ls = rig.links()
+            if ls:
+                rig.deliver(rng.choice(ls))
+    rig.quiet(rig.drain(rng))
+    return rig
+
+
+def advance_calls(rng, quick):
+    '''every order of origins in a bulk (up to 3 tasks) x final / non-final states'''
+    calls = []
+    for b in bulk_shapes(3):
+        for si in range(len(ADV_STATES)):
+            if quick and len(b) == 3 and si not in (0, 2):
+                continue
+            calls.append((rng.randrange(3), b, si, rng.choice([True, True, None]), rng.random() < 0.2))
+    rng.shuffle(calls)
+    return calls
+
+
 def run_rpc(npilots, seed):
     '''RPC round trips between every pair of sides: real Pilot.rpc (client ->
        pilot), real BaseComponent.rpc (other pairs) and bare requests with
@@ -250,15 +302,15 @@ def run_rpc(npilots, seed):
 
 # ------------------------------------------------------------------------------
 # proxy service
-PX_DEVS = ['DevMonitorReapsAll', 'DevHeartbeatAll', 'DevUnregisterAll']
-PX_INVS = ['TypeOK', 'InvLiveRegistered', 'InvDelivers', 'InvUpIffReg']
+PX_DEVS = ['DevMonitorReapsAll', 'DevHeartbeatAll', 'DevUnregisterAll', 'DevSharedReportQueue']
+PX_INVS = ['TypeOK', 'InvLiveRegistered', 'InvDelivers', 'InvUpIffReg', 'InvOwnEndpoints']
 PX_ACTS = ['ActIsolation', 'ActMonitorExact']
 PX_TIMEOUT = 2
 
 
-def px_cfg(nsess, maxt=4, maxops=8, devs=(), invs=None, props=None):
+def px_cfg(nsess, maxt=4, maxops=8, devs=(), invs=None, props=None, maxw=3):
     c  = 'CONSTANTS\n Sessions = {%s}\n' % ', '.join('"s%d"' % (i + 1) for i in range(nsess))
-    c += ' Timeout = %d\n MaxT = %d\n MaxOps = %d\n' % (PX_TIMEOUT, maxt, maxops)
+    c += ' Timeout = %d\n MaxT = %d\n MaxOps = %d\n MaxW = %d\n' % (PX_TIMEOUT, maxt, maxops, maxw)
     for d in PX_DEVS:
         c += ' %s = %s\n' % (d, 'TRUE' if d in devs else 'FALSE')
     c += 'SPECIFICATION Spec\nCHECK_DEADLOCK FALSE\n'
@@ -270,12 +322,39 @@ def px_cfg(nsess, maxt=4, maxops=8, devs=(), invs=None, props=None):
 
 
 def px_ops_from_steps(steps):
-    ops = []
-    for act, args, _ in steps:
-        if act == 'Init':
+    '''ProxySvc behaviour -> request level operations: Spawn .. Finish is a
+       registration whose worker reports in time, Spawn .. Timeout one whose worker
+       is given up; a Report after that is the late report of worker w'''
+    acts = [(act, re.findall(r'"([^"]*)"', args or ''), re.findall(r'\b(\d+)\b', args or ''))
+            for act, args, _ in steps if act != 'Init']
+    ops, i, nspawn = [], 0, 0
+    while i < len(acts):
+        act, strs, nums = acts[i]
+        if act == 'Spawn':
+            nspawn += 1
+            before, after, own_seen, end, j = [], [], False, None, i + 1
+            while j < len(acts) and acts[j][0] not in ('Finish', 'Timeout_'):
+                if acts[j][0] == 'Report':
+                    w = int(acts[j][2][0])
+                    if w == nspawn:
+                        own_seen = True
+                    else:
+                        (after if own_seen else before).append(['Report', str(w - 1)])
+                j += 1
+            if j >= len(acts):
+                break                      # behaviour ends inside a registration
+            ops += before
+            ops.append(['Register' if acts[j][0] == 'Finish' else 'RegisterLate', strs[0]])
+            ops += after
+            i = j + 1
             continue
-        a = re.findall(r'"([^"]*)"', args or '')
-        ops.append([act, a[0] if a else 'none'])
+        if act == 'Report':
+            ops.append(['Report', str(int(nums[0]) - 1)])
+        elif act in ('Tick', 'Monitor'):
+            ops.append([act, 'none'])
+        else:
+            ops.append([act, strs[0] if strs else 'none'])
+        i += 1
     return ops
 
 
@@ -284,8 +363,10 @@ def px_random_ops(rng, sessions, n):
     for _ in range(n):
         r = rng.random()
         s = rng.choice(sessions)
-        if   r < 0.18: ops.append(['Register', s])
-        elif r < 0.26: ops.append(['Unregister', s])
+        if   r < 0.14: ops.append(['Register', s])
+        elif r < 0.19: ops.append([rng.choice(['RegisterLate', 'RegisterLate', 'RegisterNever']), s])
+        elif r < 0.23: ops.append(['Report', 'none'])
+        elif r < 0.28: ops.append(['Unregister', s])
         elif r < 0.44: ops.append(['Heartbeat', s])
         elif r < 0.52: ops.append(['Lookup', s])
         elif r < 0.70: ops.append(['Tick', 'none'])
@@ -302,10 +383,13 @@ def run_proxy(sessions, npilots, ops, with_rpc=False, seed=0):
     pr  = R.ProxyRig(sessions, npilots=npilots, timeout_ticks=PX_TIMEOUT, with_rpc=with_rpc)
     wanted, ghb = set(), {}
     for op, sid in ops:
-        if op == 'Register':
-            if pr.register(sid)['ok']:
+        if op in ('Register', 'RegisterLate', 'RegisterNever'):
+            mode = {'Register': 'intime', 'RegisterLate': 'late', 'RegisterNever': 'never'}[op]
+            if pr.register(sid, mode)['ok']:
                 wanted.add(sid)
                 ghb[sid] = pr.now
+        elif op == 'Report':
+            pr.late_report(None if sid == 'none' else int(sid))
         elif op == 'Unregister':
             pr.unregister(sid)
             wanted.discard(sid)
@@ -431,6 +515,8 @@ def offending(trace):
 def classify(trace):
     if len(set(trace.get('idents', trace['sides']))) < len(trace['sides']):
         return 'side identities not distinct'
+    if any(e['ev'] == 'Update' and e['n'] != 1 for e in trace['events']):
+        return 'bulk of tasks published through advance'
     if any(e['ev'] == 'Publish' and e.get('re') for e in trace['events']) and not offending(trace):
         return 'rpc result'
     off = offending(trace)
@@ -488,13 +574,15 @@ def run(chk, tier, seed):
     # runs without symmetry also check liveness; eager = the sound reduction EagerApp
     # of the model (quick tier: larger instances); nrpc = RPC round trips; fc = flag
     # values of plain publishes (() = RPC traffic only)
-    P = lambda np_, nm, **k: dict(dict(np=np_, nm=nm, sym=False, eager=False, nrpc=0, fc=FWDVALS,
+    P = lambda np_, nm, **k: dict(dict(np=np_, nm=nm, sym=False, eager=False, nrpc=0, nadv=0, fc=FWDVALS,
                                        fair=None), **k)
-    plan = [P(1, 2, nrpc=1), P(2, 2, nrpc=1, fc=(), sym=True), P(3, 2, sym=True, eager=True)]
+    plan = [P(1, 2, nrpc=1, nadv=1), P(2, 2, nrpc=1, nadv=1, fc=(), sym=True),
+            P(3, 2, sym=True, eager=True)]
     if not quick:
         plan += [P(2, 2, sym=True, eager=True), P(2, 1), P(3, 1), P(2, 2, sym=True), P(2, 2),
                  P(1, 3, fair=False),
-                 P(2, 2, nrpc=1, fair=False), P(1, 4, nrpc=2, fc=())]
+                 P(2, 2, nrpc=1, fair=False), P(1, 4, nrpc=2, fc=()), P(3, 2, nadv=2, fc=(), sym=True,
+                                                                         eager=True)]
     # the exhaustive runs do not depend on the code under test: they run in the
     # background while the rig is driven, and are collected before the verdict
     pool, futs = ThreadPoolExecutor(max_workers=4 if quick else 3), []
@@ -502,15 +590,16 @@ def run(chk, tier, seed):
         fair = (not c['sym']) if c['fair'] is None else c['fair']
         label = 'exhaustive%s:%dpilots-%dmsgs%s%s%s%s' % (
             '+liveness' if fair else '', c['np'], c['nm'], '-sym' if c['sym'] else '',
-            '-eager' if c['eager'] else '', '-rpc%d' % c['nrpc'] if c['nrpc'] else '',
+            '-eager' if c['eager'] else '',
+            ('-rpc%d' % c['nrpc'] if c['nrpc'] else '') + ('-adv%d' % c['nadv'] if c['nadv'] else ''),
             '-rpconly' if not c['fc'] else '')
         futs.append((label, 'Forward', pool.submit(
             tlc.run, 'Forward', 'Forward', 'MC.cfg', workers=4 if quick else WORKERS, timeout=1500,
             extra_files=mc_cfg(c['np'], c['nm'], sym=c['sym'], fair=fair, eager=c['eager'],
-                               nrpc=c['nrpc'], fwdchoice=c['fc'],
+                               nrpc=c['nrpc'], nadv=c['nadv'], fwdchoice=c['fc'],
                                props=['Termination', 'AllSettledAtRest'] if fair else ()))))
     # the proxy service hosting the proxy pubsubs of several sessions
-    for ns, maxt, maxops in ([(2, 4, 9)] if quick else [(2, 4, 9), (3, 4, 9)]):
+    for ns, maxt, maxops in ([(2, 3, 12)] if quick else [(2, 3, 12), (3, 3, 12)]):
         futs.append(('exhaustive:proxy-%dsessions' % ns, 'ProxySvc', pool.submit(
             tlc.run, 'Forward', 'ProxySvc', 'PX.cfg', workers=4 if quick else WORKERS, timeout=900,
             extra_files=px_cfg(ns, maxt, maxops))))
@@ -533,12 +622,14 @@ def run(chk, tier, seed):
                   (['DevKeepFwd', 'DevL2PAnyOrigin'], ['InvHops'], 'InvHops'),
                   (['DevKeepFwd'], STRUCT, 'InvCleared'),
                   (['DevKeepFwd'], PROPINV, None),
-                  (['DevResultCopiesFwd'], PROPINV, 'InvRpcReturns')]
+                  (['DevResultCopiesFwd'], PROPINV, 'InvRpcReturns'),
+                  (['DevBulkHeadDecides'], PROPINV, 'InvClientUpdate')]
         for devs, invs, want in expect:
-            rpcdev = 'DevResultCopiesFwd' in devs
+            rpcdev = 'DevResultCopiesFwd' in devs or 'DevBulkHeadDecides' in devs
             res = tlc.run('Forward', 'Forward', 'MC.cfg', workers=WORKERS, timeout=600,
                           extra_files=mc_cfg(2, 2 if rpcdev else 1, devs=devs, invs=invs,
                                              nrpc=1 if rpcdev else 0,
+                                             nadv=1 if 'DevBulkHeadDecides' in devs else 0,
                                              fwdchoice=() if rpcdev else FWDVALS))
             chk.add_tlc(res, 'deviation:' + '+'.join(devs))
             if res.violated != want:
@@ -552,9 +643,10 @@ def run(chk, tier, seed):
 
         for dev, want, kind in [('DevMonitorReapsAll', 'InvLiveRegistered', 'invariant'),
                                 ('DevUnregisterAll',   'InvLiveRegistered', 'invariant'),
+                                ('DevSharedReportQueue', 'InvOwnEndpoints', 'invariant'),
                                 ('DevHeartbeatAll',    'ActIsolation',      'action')]:
             res = tlc.run('Forward', 'ProxySvc', 'PX.cfg', workers=WORKERS, timeout=600,
-                          extra_files=px_cfg(2, 4, 8, devs=[dev],
+                          extra_files=px_cfg(2, 3, 12, devs=[dev],
                                              invs=[want] if kind == 'invariant' else [],
                                              props=[want] if kind == 'action' else []))
             chk.add_tlc(res, 'deviation:' + dev)
@@ -569,7 +661,7 @@ def run(chk, tier, seed):
     # ---- 3. TLC behaviours -> real forwarders, step by step -------------------------
     nsim = 60 if quick else 300
     # (pilots, messages, flag choice, rpc round trips)
-    sims = [(2, 4, ('true', 'false'), 1), (3, 2, ('true',), 0)]
+    sims = [(2, 4, ('true', 'false'), 1), (3, 3, ('true',), 0)]
     if not quick:
         sims += [(1, 3, FWDVALS, 0), (1, 3, ('true',), 0), (2, 2, ('true',), 0), (2, 3, FWDVALS, 0),
                  (3, 3, ('true', 'false'), 1), (2, 4, ('true',), 0), (3, 2, FWDVALS, 0),
@@ -581,7 +673,8 @@ def run(chk, tier, seed):
             res = tlc.run('Forward', 'Forward', 'MC.cfg', workers=1, timeout=600,
                           simulate='num=%d' % nsim, depth=200, seed=rng.randrange(10 ** 6),
                           dump_dir=dump,
-                          extra_files=mc_cfg(np_, nm, invs=['TypeOK'], fwdchoice=fc, nrpc=nrpc))
+                          extra_files=mc_cfg(np_, nm, invs=['TypeOK'], fwdchoice=fc, nrpc=nrpc,
+                                             nadv=0 if nrpc else 2))
             chk.add_tlc(res, 'simulate:%dpilots-%dmsgs' % (np_, nm))
             for j, f in enumerate(sorted(glob.glob(os.path.join(dump, 'tr_*')))):
                 script = script_from_steps(tlc.parse_sim_file(f))
@@ -657,14 +750,22 @@ def run(chk, tier, seed):
         rig = run_rpc(np_, sd)
         items.append((rig.trace(), {'kind': 'rpc', 'npilots': np_, 'seed': sd}))
 
+    # ---- 7b. bulks of tasks of different origin through AgentComponent.advance -------------
+    calls = advance_calls(rng, quick)
+    for i in range(0, len(calls), 12):
+        np_, sd = 1 + (i // 12) % 3, rng.randrange(10 ** 9)
+        rig = run_advance(np_, calls[i:i + 12], sd)
+        items.append((rig.trace(), {'kind': 'advance-bulk', 'npilots': np_, 'calls': calls[i:i + 12],
+                                    'seed': sd}))
+
     # ---- 8. the proxy service shared by several sessions --------------------------------------
     pruns = []
     dump  = tlc.scratch('rpsim_')
     try:
         res = tlc.run('Forward', 'ProxySvc', 'PX.cfg', workers=1, timeout=600,
-                      simulate='num=%d' % (40 if quick else 300), depth=40,
+                      simulate='num=%d' % (40 if quick else 300), depth=60,
                       seed=rng.randrange(10 ** 6), dump_dir=dump,
-                      extra_files=px_cfg(3, 5, 14, invs=['TypeOK'], props=[]))
+                      extra_files=px_cfg(3, 4, 24, invs=['TypeOK'], props=[], maxw=5))
         chk.add_tlc(res, 'simulate:proxy-3sessions')
         for j, f in enumerate(sorted(glob.glob(os.path.join(dump, 'tr_*')))):
             ops = px_ops_from_steps(tlc.parse_sim_file(f))
@@ -732,6 +833,8 @@ def replay(chk, obj):
         rig = run_close(inp['npilots'], inp['groups'], inp['seed'])
     elif inp['kind'] == 'rpc':
         rig = run_rpc(inp['npilots'], inp['seed'])
+    elif inp['kind'] == 'advance-bulk':
+        rig = run_advance(inp['npilots'], [tuple(c) for c in inp['calls']], inp['seed'])
     elif inp['kind'] == 'proxy':
         pr = run_proxy(inp['sessions'], inp['npilots'], inp['ops'], inp['rpc'], inp['seed'])
         check_traces(chk, check_proxy(chk, [(pr, inp)]))
